@@ -31,7 +31,7 @@ CLAIMS = {
 
 NEGATIVE = ["nodirty_t", "nodirty_f", "nodirty_r", "nodirty_ca", "nodirty_acc", "nodirty_am", "nodirty_ma",
             "guard_filter_kind", "guard_filter_prefix", "guard_transform_class", "guard_transform_prefix",
-            "guard_transform_wrong_pair", "guard_dof_x_only", "guard_ao_wrong_pair", "dirty_am_presence_only", "gradient_no_refresh", "map_not_validated"]
+            "guard_transform_wrong_pair", "guard_dof_x_only", "guard_ao_wrong_pair", "dirty_am_presence_only", "clip16_empty_keeps_old", "gradient_no_refresh", "map_not_validated"]
 ORDER = ["t", "f", "r", "c", "sc", "cc", "am", "ao", "ca", "acc", "pal", "d", "dof", "ma"]
 TYPES = {"bits": 0, "indexed": 1, "gradient": 2, "solid": 3}
 ROLES = {"src": 0, "mask": 1, "dst": 2}
@@ -103,7 +103,7 @@ def to_script(beh, name, rng, wide_dst=False):
 BITSY = [("bits", "src"), ("bits", "mask"), ("indexed", "src"), ("indexed", "mask")]
 SRCMASK = BITSY + [("gradient", "src"), ("gradient", "mask")]
 PREF = {    # configurations (type, role) in which a change of the property changes the pixels
-    "t": SRCMASK, "f": BITSY, "r": SRCMASK, "c": [("bits", "dst")], "sc": BITSY, "cc": BITSY,
+    "t": SRCMASK, "f": BITSY, "r": SRCMASK, "c": [("bits", "dst")] + BITSY, "sc": BITSY, "cc": BITSY,
     "am": [("bits", "src"), ("bits", "dst")], "ao": [("bits", "src"), ("bits", "dst")], "ma": [("bits", "src"), ("bits", "dst")],
     "ca": [("bits", "mask"), ("gradient", "mask"), ("solid", "mask")], "acc": [("bits", "src"), ("bits", "mask"), ("bits", "dst")],
     "pal": [("indexed", "src"), ("indexed", "mask")], "d": [("bits", "dst")], "dof": [("bits", "dst")],
@@ -150,6 +150,12 @@ HANDWRITTEN = [
     hand("bits", "src", "0 0 0 0 29", [("f", 1, 1), ("t", 19, 1), ("t", 2, 1), ("t", 20, 1), ("t", 21, 1), ("t", 9, 1),
                                          ("t", 19, 1), ("t", 1, 1), ("f", 16, 1), ("f", 17, 1), ("f", 0, 1), ("f", 16, 1)]),
     hand("bits", "src", "0 0 0 384 30", [("r", 1, 1), ("r", 0, 1), ("r", 2, 1), ("t", 19, 1), ("r", 0, 1)]),
+    # the clip through both setters (8 + k: region16), empty region after a non-empty one, as destination and as source
+    hand("bits", "dst", "0 0 0 0 31", [("c", 1, 1), ("c", 15, 1), ("c", 2, 1), ("c", 7, 1), ("c", 9, 1), ("c", 15, 0),
+                                         ("c", 10, 1), ("c", 8, 1), ("c", 2, 0), ("c", 15, 1), ("c", 0, 1)]),
+    hand("bits", "src", "0 0 0 0 32", [("sc", 1, 0), ("cc", 1, 1), ("c", 9, 1), ("c", 15, 1), ("c", 10, 1), ("c", 7, 1),
+                                         ("c", 1, 1), ("c", 15, 1), ("c", 8, 1)]),
+    hand("bits", "mask", "0 0 0 0 33", [("sc", 1, 0), ("cc", 1, 1), ("c", 2, 1), ("c", 15, 1), ("c", 1, 1), ("c", 7, 1)]),
     # coinciding values: the new y equals the old x, exchanged coordinates
     hand("bits", "dst", "0 0 0 0 24", [("am", 1, 1), ("ao", 1, 1), ("ao", 4, 1), ("ao", 3, 1), ("ao", 1, 1), ("ao", 8, 1),
                                          ("ao", 2, 1), ("ao", 6, 1), ("ao", 0, 1)]),
@@ -235,6 +241,11 @@ def run(prop, args):
         pref = [b for b in cand if (b[0]["type"], b[0]["role"]) in PREF[key[0]]]
         rest = [b for b in cand if (b[0]["type"], b[0]["role"]) not in PREF[key[0]]]
         if quick:
+            if key[0] == "c":       # the clip in every role: destination, and client-clipped source / mask
+                for role in ("dst", "src", "mask"):
+                    rr = [b for b in pref if b[0]["role"] == role]
+                    pairs += rng.sample(rr, min(len(rr), 1))
+                continue
             pairs += rng.sample(pref, min(len(pref), 1))
             if key[0] not in ("t", "f"):
                 pairs += rng.sample(pref, min(len(pref), 1)) + rng.sample(rest, min(len(rest), 1))
@@ -245,7 +256,7 @@ def run(prop, args):
         pref = [b for b in cand if (b[0]["type"], b[0]["role"]) in PREF[key[0]]]
         if not quick:
             pairs += cand
-        elif key[0] in ("am", "r", "ca", "acc", "ma", "ao", "pal") or rng.random() < 0.25:
+        elif key[0] in ("am", "r", "ca", "acc", "ma", "ao", "pal", "c") or rng.random() < 0.25:
             pairs += rng.sample(pref, min(len(pref), 1))
     chk.extra["setter_value_pairs"] = {"pairs": len(groups), "histories_replayed": len(pairs)}
     pairs3 = []
